@@ -3,9 +3,11 @@
 P="$1"; shift
 git -C /repo diff --quiet || { echo "/repo not clean"; exit 2; }
 git -C /repo apply "$(realpath "$P")" || { echo "patch does not apply"; exit 2; }
+OUT=$(mktemp -d /tmp/lomond-try-XXXXXX)
 for c in "$@"; do
-  out=$(cd /verif && timeout 600 ./check "$c" --tier quick 2>&1 | grep -v "^Parsing\|^Semantic" | grep "VIOLATION\|KNOWN\|: ok\|MACHINERY\|violation(s)" | cut -c1-220 | head -6)
+  out=$(cd /verif && VERIF_OUT="$OUT" timeout 600 ./check "$c" --tier quick 2>&1 | grep -v "^Parsing\|^Semantic" | grep "VIOLATION\|KNOWN\|: ok\|MACHINERY\|violation(s)" | cut -c1-220 | head -6)
   echo "[$c] $out"
 done
 git -C /repo checkout -- .
 git -C /repo status --short
+rm -rf "$OUT"
